@@ -270,7 +270,9 @@ def file_shapes(ctx, lua, rng, count):
             b'__' + bytes(rng.choice(allglyph[17:]) for _ in range(rng.randint(2, 8))) + b'__' for _ in range(20)]
         rng.shuffle(per)
         code = (b'--[[\n' + b'\n'.join(per[:80]) + b'\n]]\ns=[==[\n' + b'\n'.join(per[80:160]) + b'\n]==]\n' +
-                b''.join(n + b'\n=1\n' for n in per[160:] if n[2] >= 128 and all(c >= 128 or c in b'_a1' for c in n)) + b'x=2\n')
+                b''.join(n + b'\n=1\n' for n in per[160:] if n[2] >= 128 and all(c >= 128 or c in b'_a1' for c in n)) + b'x=2\n' +
+                # (words in braces, percent signs, dollar signs: text, with glyphs around them)
+                b'-- {gfx} \x8e {map} \x97 {lua} {label} {version} %s ${x}\nlevels={map}\nt={sfx,music,gff}\n')
         ctx.case(code)
         try:
             back = p8_roundtrip(code, version, entry)
@@ -285,12 +287,29 @@ def file_shapes(ctx, lua, rng, count):
         # (c) the same bytes arriving through #include of another .p8 / .lua file
         inc_code = b'--' + bytes(b for b in rng.sample(list(allglyph), 60) if b not in (10, 13)) + b'\nq="' + bytes(
             rng.choice(three + multi) for _ in range(50)) + b'"\n'
+        # (inside an included cart a directive is a line of text like any other, glyphs in its name included)
+        inc_code_lua = inc_code
+        inc_code = inc_code + b'#include ' + bytes(rng.choice(three + multi) for _ in range(3)) + b'.lua\n--[[\n#include \x99lib.p8:1\n]]\n'
         with tempfile.TemporaryDirectory() as d:
             g = game.Game.make_empty_game(version=8)
             g.lua = lua.Lua.from_lines([inc_code], version=8)
             p8file.to_file(g, os.path.join(d, 'inc.p8'))
+            # the same cart read with directive processing switched off: its own directive lines stay text
+            from pico8.game.formatter.p8 import P8Formatter
+            try:
+                with open(os.path.join(d, 'inc.p8'), 'rb') as fh:
+                    raw = b''.join(P8Formatter.from_file(fh, filename=os.path.join(d, 'inc.p8'), do_includes=False).lua.to_lines())
+            except Exception as e:
+                ctx.violation('reading a cart with directive processing off raised %r' % (e,), {'kind': 'file', 'code': inc_code})
+                return
+            ctx.monitor('file_roundtrips')
+            ctx.feature('directive_lines_kept_as_text')
+            if raw != inc_code:
+                ctx.violation('a cart read with directive processing off does not carry its bytes (directive lines with glyphs)',
+                              {'kind': 'file', 'code': inc_code})
+                return
             with open(os.path.join(d, 'inc2.lua'), 'wb') as fh:
-                fh.write(inc_code)
+                fh.write(inc_code_lua)
             for target in ('inc.p8', 'inc2.lua'):
                 main = os.path.join(d, 'main.p8')
                 gm = game.Game.make_empty_game(version=8)
